@@ -18,6 +18,7 @@ mod c04;
 mod c05;
 mod c06;
 mod c07;
+mod c07socks;
 mod c08;
 mod c09;
 mod c10;
@@ -94,6 +95,7 @@ fn main() {
         "c05" => c05::run(&mut ctx),
         "c06" => c06::run(&mut ctx),
         "c07" => c07::run(&mut ctx),
+        "c07socks" => c07socks::run(&mut ctx),
         "c09" => c09::run(&mut ctx),
         "c10" | "c01" => c10::run(&mut ctx),
         "c11" => c11::run(&mut ctx),
